@@ -291,7 +291,7 @@ def cases(draw):
     n = draw(st.integers(2, 6))
     base = draw(st.sampled_from(["r.c", "r.c", "c", "app"]))
     last = base.rsplit(".", 1)[-1]
-    names = draw(st.lists(st.sampled_from(["k1", "k2", "k3", "a", "ab", "a_b", "aa", "b", last, last + "x"]), min_size=n, max_size=n, unique=True))
+    names = draw(st.lists(st.sampled_from(["k1", "k2", "k3", "a", "ab", "a_b", "aa", "b", last, last + "x", "col\u00b7legi", "\u0939\u093f\u0902\u0926\u0940"]), min_size=n, max_size=n, unique=True))
     tree = M.closure({base}) | {f"{base}.{c}" for c in names}
     for c in names:
         for s in draw(st.lists(st.sampled_from(["s", "t", "a", last]), max_size=2, unique=True)):
